@@ -196,6 +196,8 @@ func (a *adapter) Data(data []byte, streamEnded bool) error {
 				return fmt.Errorf("reading message length: %w", err)
 			}
 			a.state = readingMessageData
+			// A zero-length message is complete already, even though the buffer is empty.
+			continue
 		case readingMessageData:
 			if uint32(a.buffer.Len()) < a.length {
 				return nil
